@@ -5,7 +5,7 @@
    setter preserves the whole invariant, and everything about schema content
    (usedUserTypes/usedUserEnums), is checked on the implementation's JSON for every accepted
    case and through the skeleton correspondence. *)
-From JS Require Import Base Bytes Scanner Directive Core Expand Catalog C05Proofs.
+From JS Require Import Base Bytes Scanner Directive Core Expand Catalog C05Proofs CatalogOrder CatalogIds.
 
 (* registering an interaction under tag names: every existing tag keeps its name; it lists
    each id as often as before, plus the new id once per occurrence of the tag's name among
@@ -59,6 +59,23 @@ Theorem C05_refuted_duplicate_tag_name :
   end.
 Proof. exact duplicate_tag_name_refuted. Qed.
 
+(* for EVERY catalog the builder produces: interaction ids are pairwise distinct, and the id of
+   an HTTP interaction is protocol + method keyword + path (Proofs/CatalogOrder.v, CatalogIds.v:
+   invariants of every add-function, lifted over branches and forests) *)
+Theorem C05_built_catalog_ids_are_distinct :
+  forall read_body banned fuel forest c,
+    build_catalog read_body banned fuel forest = COk c -> NoDup (ids c).
+Proof. exact built_catalog_ids_distinct. Qed.
+
+Theorem C05_built_catalog_http_id_is_protocol_method_path :
+  forall read_body banned fuel forest c,
+    build_catalog read_body banned fuel forest = COk c ->
+    forall h, In (IHttp h) (c_inters c) ->
+    exists k, is_method k = true /\ hi_method h = kind_name k /\ hi_id h = str "http " ++ kind_name k ++ sp ++ hi_path h.
+Proof. exact built_catalog_http_ids. Qed.
+
+Print Assumptions C05_built_catalog_ids_are_distinct.
+Print Assumptions C05_built_catalog_http_id_is_protocol_method_path.
 Print Assumptions C05_registration.
 Print Assumptions C05_exactly_once.
 Print Assumptions C05_interaction_tags_is_registration.
